@@ -128,7 +128,8 @@ theorem C26_is_empty_spec (h : Heap) (a : Nat) (ha : a < h.length) :
   cases h.arr a <;> simp <;> omega
 
 /-- `swap(i, j)`: both indices in range → the two elements are exchanged and nothing else changes;
-    otherwise the ArrayOutOfBounds error and no write has happened. -/
+    otherwise the result is the ArrayOutOfBounds error (an error carries no heap in the model — the program
+    stops there; that both reads precede the first write is visible in the definition of `swap`, not in this statement). -/
 theorem C26_swap_spec (h : Heap) (a : Nat) (i j : Int) (ha : a < h.length) (hi : inI64 i) (hj : inI64 j) :
     if (0 ≤ i ∧ i < (h.arr a).length) ∧ (0 ≤ j ∧ j < (h.arr a).length) then
       ∃ h', swap h (.ref a) i j = .ok h' ∧
